@@ -103,6 +103,26 @@ def gen_cases(rng, tier):
             ops.append(["q_alloc", f"{_qty.tok(rng, x)}@{u}", ",".join(toks), disperse, mode])
         case = _qty.case_of(ctx, ops, ["allocate"])
         cases.append(case)
+    # money: ISO currencies and user-declared currencies whose smallest fraction
+    # is NOT a power of ten, declared with the fraction alone and together with
+    # the minor unit - every portion is a multiple of the DECLARED fraction
+    for k in range(4 if tier == "thorough" else 2):
+        curs = {"EUR": Fraction(1, 100), "JPY": Fraction(1), "BHD": Fraction(1, 1000),
+                f"XA{k}": Fraction(1, 20), f"XB{k}": Fraction(1, 4), f"XC{k}": Fraction(1, 40)}
+        setup = [["load_money"], ["cur_reg", "EUR"], ["cur_reg", "JPY"], ["cur_reg", "BHD"],
+                 ["cur_new", f"XA{k}", "-", "1/20:2"], ["cur_new", f"XB{k}", "2", "1/4:2"],
+                 ["cur_new", f"XC{k}", "3", "1/40:3"]]
+        ctx = _qty.Ctx(setup, {c: dict(cls="Money", scale=None, quantum=q) for c, q in curs.items()},
+                       {"Money": dict(dim={"Money": 1}, ref=None, quantum=None)}, "money")
+        ops = [["numkind", "dec"]]
+        for _ in range(per):
+            u = rng.choice(sorted(curs))
+            n = rng.choice([2, 3, 3, 5, 6, 7])
+            vals = gen_ratios(rng, ctx, n)
+            x = Fraction(rng.randint(-50000, 50000), 100)
+            ops.append(["q_alloc", f"{rat(x)}@{u}", ",".join("n:" + rat(r) for r in vals),
+                        rng.choice(["0", "1", "1"]), rng.choice(MODES)])
+        cases.append(_qty.case_of(ctx, ops, ["allocate", "money"]))
     return cases
 
 
